@@ -8,6 +8,8 @@ PROFILES = {
     # ContextRule 31, Context 21; can_enforce/enforce(context, signers, rule, account) = 68 argument words (<= AW 96, new
     # additive model feature aw96); key_data / sig_data `into_val` are digests of the injective oracle (valdigest)
     'sa_auth': {'features': ['cap2', 'bytes32', 'vw24', 'valdigest', 'aw96']},
+    # the same + smart_account::glue (a harness with #[kani::stub])
+    'sa_glue': {'features': ['cap2', 'bytes32', 'vw24', 'valdigest', 'aw96', 'saglue'], 'stubbing': True},
     # CAP 3, Bytes 16: Signer 5, Vec<Signer> 16, ContextRule 31 (event <= EW 32; install(param, rule, account) 37 <= AW 40);
     # `to_xdr` = 4-byte handle of the injective oracle (new additive model feature xdrdigest: a faithful serialisation of a
     # Vec<Signer> can never fit into one model Bytes); bytesdirect: all byte-string lengths in the fingerprint are concrete
@@ -35,8 +37,9 @@ B_SEL2 = B_SEL.replace('<= 1 policy', '<= 2 policies')
 B_ONE = ('CAP=2: whole check, 1 context, ONE listed rule (Default / own type) + one stored but unlisted rule, <= 2 signers and <= 2 policies per rule, '
          '0..2 signatures; ' + AUTH_COMMON)
 B_TWO = 'CAP=2: whole check, 1 context, an own-type rule and a Default rule, <= 2 signers and <= 1 policy per rule, 0..2 signatures; ' + AUTH_COMMON
-B_2CTX = ('CAP=2: whole check, batch of 2 contexts (a contract call and a contract creation: different rule types, own id list each), one Default rule + '
-          'one unlisted rule, <= 1 signer and <= 1 policy per rule, 0..1 signatures; ' + AUTH_COMMON)
+B_GLUE = ('CAP=2: do_check_auth with get_validated_context STUBBED (#[kani::stub]) by a recorder returning a harness-chosen (rule, context, signers) per call: '
+          'batch of exactly 2 contract-call contexts, per context an arbitrary rule (any id, <= 1 signer, <= 2 policies, Default / CallContract type) and <= 1 '
+          'selected signer, 0..1 signatures; storage untouched; ' + AUTH_COMMON)
 CALLCTX = '; context: contract call (Context::Contract)'
 B_SEL_ANY = B_SEL.replace('in the concrete list shape named by the harness (older slot, newer slot)', 'of symbolic kinds (unlisted / own type / Default)')
 PINNED = ('; all foreign calls pinned to return (boolean answers arbitrary), verifier answers true, delegated signers grant (payload,), the reference finds a '
@@ -67,12 +70,11 @@ C03 = [
     A('check_auth_one_default_rule', AUTH_FNS + EXAMPLE_AUTH, B_ONE + CALLCTX + '; through the example account\'s __check_auth'),
     A('check_auth_one_own_rule', AUTH_FNS, B_ONE + '; context: CreateContractHostFn', tier='thorough'),
     A('check_auth_one_default_rule_accepts', AUTH_FNS, B_ONE + CALLCTX + PINNED, must_succeed=True),
-    A('check_auth_one_own_rule_accepts', AUTH_FNS, B_ONE + '; context: CreateContractWithCtorHostFn' + PINNED, must_succeed=True, tier='thorough'),
     A('select_own_own_2pol', SEL_FNS, B_SEL2 + CALLCTX, tier='thorough'),
     A('select_own_default_2pol', SEL_FNS, B_SEL2 + CALLCTX, tier='thorough'),
     A('select_default_default_2pol', SEL_FNS, B_SEL2 + CALLCTX, tier='thorough'),
     A('check_auth_own_and_default_rule', AUTH_FNS, B_TWO + CALLCTX, tier='thorough'),
-    A('check_auth_2ctx_one_default_rule', AUTH_FNS, B_2CTX, tier='thorough'),
+    A('glue::check_auth_glue_2ctx', [SA + 'do_check_auth', SA + 'authenticate', 'policies::PolicyClient::enforce', 'verifiers::VerifierClient::verify'], B_GLUE, profile='sa_glue'),
 ]
 
 RULE_FNS = [SA + f for f in ('get_context_rule', 'compute_fingerprint', 'validate_and_set_fingerprint', 'remove_fingerprint',
@@ -116,12 +118,13 @@ CHECKS = {
     'C03': {
         'kani': C03,
         'bounds': ('split along do_check_auth = authenticate ; get_validated_context per context ; enforce per validated context. quick: ' + B_AUTH + ' | ' + B_SEL + ' | ' + B_ONE +
-                   ' | thorough adds: <= 2 policies per rule in the selection; whole check over two listed rules; batch of 2 contexts'),
-        'outside_claim': ('rule sets beyond 2 listed rules / 2 signers / 2 policies per rule / 2 contexts / 2 signatures (documented maxima 15 / 15 / 5; the loops are uniform: three listed rules at CAP=3 exhaust 12 GB; '
+                   ' | ' + B_GLUE + ' | thorough adds: <= 2 policies per rule in the selection; contract-creation contexts; whole check over two listed rules'),
+        'outside_claim': ('rule sets beyond 2 listed rules / 2 signers / 2 policies per rule / 2 signatures; batches of 2 contexts only compositionally (stubbed selection; the un-stubbed whole check over 2 contexts exhausts 12 GB), batches beyond 2 (documented maxima 15 / 15 / 5; the loops are uniform: three listed rules at CAP=3 exhaust 12 GB; '
                           'the whole do_check_auth is checked over registries with at most two listed rules, the selection over every two-rule list shape separately: small-scope argument); real signature cryptography (verifier contracts are oracles) and real policy contracts (C14 covers the library\'s own); '
                           'the host\'s own matching of __check_auth results to the invocation tree; key and signature data longer than 2 bytes, rule names longer than 2 bytes '
                           '(opaque to the code under test); archived persistent entries'),
         'stubs_and_assumes': [
+            'glue::check_auth_glue_2ctx replaces get_validated_context by a recording stub (what the real selection returns is the subject of the select_* harnesses)',
             'registry invariant assumed for the pre-state (proved stepwise by the C20 context_rules harnesses): a listed id has a Meta of the list\'s type and is listed once',
             'Signatures map: sorted, duplicate-free keys (the host\'s map invariant)',
             '"newest first" = reverse list order (lists are append-only, so list order is creation order)',
